@@ -148,7 +148,18 @@ def net_case(torch, job):
             K, d0, r, v = job['pat']
             spec = pattern_spec(rng, K, d0, dw_mid=job.get('dw_mid', False))
         else:
-            spec = gen_spec(rng, job.get('dim') or rng.choice([1, 1, 2]))
+            if job['kind'] == 'xnet':
+                # BN-free, no average pooling: every value stays an integer -> the whole network is evaluated by the Coq model
+                for _ in range(40):
+                    spec = ga.gen(rng, dim=job.get('dim') or rng.choice([1, 1, 2]), conv_head=True, k1d=[1, 2, 3, 3, 4, 5, 6, 7], p_stride=0.2, bn=False, cmax=4,
+                                  T=rng.randint(6, 9), HW=rng.randint(4, 6), depth=rng.randint(1, 3))
+                    if not any(nd['k'].startswith(('avgpool', 'gap')) for nd in spec['nodes']) and not (ga.has_dw_after_cat(spec) or ga.has_add_of_cat(spec)):
+                        break
+                else:
+                    o['skip'] = 'no-average-free-architecture'
+                    return o
+            else:
+                spec = gen_spec(rng, job.get('dim') or rng.choice([1, 1, 2]))
             if ga.has_dw_after_cat(spec) or ga.has_add_of_cat(spec):
                 o['skip'] = 'dw-after-cat' if ga.has_dw_after_cat(spec) else 'add-of-cat'     # C09's topologies
                 return o
@@ -264,6 +275,12 @@ def net_case(torch, job):
                     o['fails'].append(('layer-output-differs', '%s: %s' % (nm, dd)))
             o['layers'][nm] = L
 
+        if job['kind'] == 'xnet' and exact and not o['fails']:
+            ints = lambda t: [int(v) for v in t] if t.dim() == 1 else [ints(u) for u in t]
+            o['xnet'] = {'x': ints(xs[0][0].detach()), 'yp': ints(yp[0].detach()), 'ye': ints(ye[0].detach()),
+                         'w': {nm: ints(l.weight.detach()) for nm, l in pl.items()},
+                         'b': {nm: (None if l.bias is None else ints(l.bias.detach())) for nm, l in pl.items()},
+                         'pout': {nm: ints(t[0]) for nm, t in pouts.items()}, 'eout': {nm: ints(t[0]) for nm, t in eouts.items()}}
         # ---- provenance: overwrite every parameter of the searchable layers with unique ids, export again
         base = 1
         ids = {}
